@@ -663,7 +663,7 @@ def fabric_start(scripts=(("start",), ("start",)), pool=4, prestarted=False):
 
 
 # ---- a timed post at capacity (C31 under every interleaving of the caller with the rejected source's thread) ----------------------
-def rejecting(deferred=True, times=1, kind="fifo", capacity=2, pending=0, existing=None):
+def rejecting(deferred=True, times=1, kind="fifo", capacity=2, pending=0, existing=None, canceller=None):
   """thread 0 makes a timed post while the object already tracks `capacity` sources: the real post_fifo/post_lifo -> __post_event,
   translated whole (capacity test, run flag, spec, Thread(...), start, tracking record).  A thread the code creates is compiled on the
   spot from its target (the real post_event_thread_runner closure) and can run from the moment start() was called on it."""
@@ -765,7 +765,21 @@ def rejecting(deferred=True, times=1, kind="fifo", capacity=2, pending=0, existi
   if spawned_programs:
     sc.programs.append(spawned_programs[0])
     sc.spawned[2] = new_thread_model
-  sc.info = {"capacity": capacity, "existing": existing, "deferred": deferred, "times": times, "kind": kind, "pending": pending, "old_flags": [f.name for f in old_flags],
+  if canceller:
+    # a third party cancels at the same time: 'old' = the id of the first tracked source, 'absent' = an id nobody has
+    if not spawned_programs:
+      raise TranslationError("the canceller variant expects the translated post to contain a Thread(...) site")
+    c = Compiler(sc, 3, "canceller")
+    csrc = """
+  def do_cancel(ao, uuid):
+    ao.cancel_event(uuid)
+    cancelled()
+  """
+    sc.ghost["g.cancel_returned"] = 0
+    c.call_function(SF(node=driver(csrc, "do_cancel"), closure={"cancelled": mark("g.cancel_returned")}, qualname="scenario.do_cancel", globs={}),
+                    [SP(obj), SK(20, 20) if canceller == "old" else SK(27, 27)], {})
+    sc.programs.append(c.finish())
+  sc.info = {"canceller": canceller, "capacity": capacity, "existing": existing, "deferred": deferred, "times": times, "kind": kind, "pending": pending, "old_flags": [f.name for f in old_flags],
              "thread_created_on_translated_path": bool(spawned_programs)}
   return sc
 
